@@ -282,8 +282,8 @@ def cleanDecision (s : State) (now : Int) (n : Name) : Bool × Bool :=
       let st := stateNum s.mem n
       let fileHash := match s.mem.cache n with | some e => e.hash | none => ""
       if st > 0 then
-        ((match comp with | none => true | some c => decide (c.hash = fileHash)),
-         comp.isSome && decide (st = 4))
+        let del := (match comp with | none => true | some c => decide (c.hash = fileHash))
+        (del, del && comp.isSome && decide (st = 4))
       else
         let beg := s.disk.mtime i - (age / 60) * 3600
         let hash := match comp with | some c => c.hash | none => ""
